@@ -10,6 +10,7 @@ EXPLANATION = (
     "from its caller must, on the statement's error path, restore a savepoint / roll back / poison the transaction (enumerated idioms: a call "
     "named *rollback*, *savepoint*, *restore*, *poison*, *abort*, *discard*, or taking the transaction out of its handle); (3) ERRFLOW in the "
     "write executor — no error of a write-capable call is discarded (`.or_else(|_| ..)`, `.ok()`, `let _ =`). Statement semantics are not decided."
+    " C13.4: in the DELETE executors the refusing safety check is never reachable from a tombstone call (validate, then mutate)."
 )
 
 EXEC_NAMES = ("execute_mixed", "execute_write", "execute_write_with_rows")
